@@ -101,6 +101,8 @@ theorem appendCircuit_inv (c sub : Circ) (loc : List Nat) (hinv : c.Inv)
 theorem insertCircuit_inv (c sub : Circ) (ci : Int) (loc : List Nat) (hinv : c.Inv)
     (hs : ∀ o ∈ sub.ops, (o.mapLoc loc).Shape) : (c.insertCircuit ci sub loc).1.Inv := by
   unfold Circ.insertCircuit
+  dsimp only
+  generalize c.resolveCycle ci = ci
   split
   · exact hinv
   · split
